@@ -25,7 +25,7 @@ META = {
     "ready": True,
     "category": "proof",
     "technique": "Lean 4 invariant proof over the step-level transition system of the stop-the-world handshake (any number of threads, all interleavings) + tables regenerated from vm.rs / jit.rs / transducers.rs + generated multi-threaded programs on the real engine under a progress-counter watchdog, JIT on and off",
-    "level_text": "Theorems (lean/SteelVerif/C16/Props.lean, over the transition system of C15/Model.lean: every access to a pause flag, state, published pointer, park token, the threads mutex and the heap mutex is one atomic step): no_deadlock_code - for the current protocol (heap-lock guard kept during with_locked_env; tied to the sources by the regenerated gate_keeps_guard) and for every number of threads and every schedule respecting the guard (no spawn / host interrupt during a round, no stop request to a thread that is leaving a safepoint), in every reachable state some thread can take a runtime step that changes the state, or every thread is finished, free to run script code, or inside a primitive; round_rank_decreases - every productive step of a stopper lowers a rank bounded by 9*len+13; stop_round_terminates - along every spawn-free schedule (every interleaving with other threads' steps) a stopper changes its pc at most that many times before its round is over; join_once, join_exactly_once (a join after the exit: exactly one call receives the value); channel_fifo_per_sender (join handles and channels modelled by their specifications). For the protocol before /repo d9e2a72a: dual_stopper_deadlock (a 20-line schedule reaches a deadlocked state) and no_deadlock_partial under 'one stop request at a time'. blocking_paths_publish: every call of a plain built-in outside the listed functions is wrapped in enter_safepoint; the full statement is false (not_blocking_paths_publish: transducer/stream callbacks, apply, JIT tail calls - finding K16b). NOT a theorem: liveness under a real OS scheduler (no fairness is assumed or proved - the theorems say a step exists, not that it is taken), and that the Rust code follows the model - that is the program-level run: generated programs must finish with the generator's value while the watchdog sees stop requests complete and instructions being dispatched.",
+    "level_text": "Theorems (lean/SteelVerif/C16/Props.lean, over the transition system of C15/Model.lean: every access to a pause flag, state, published pointer, park token, the threads mutex and the heap mutex is one atomic step): no_deadlock_code - for the current protocol (heap-lock guard kept during with_locked_env; tied to the sources by the regenerated gate_keeps_guard) and for every number of threads and every schedule respecting the guard (no spawn / host interrupt during a round, no stop request to a thread that is leaving a safepoint), in every reachable state some thread can take a runtime step that changes the state, or every thread is finished, free to run script code, or inside a primitive; round_rank_decreases - every productive step of a stopper lowers a rank bounded by 9*len+13; stop_round_terminates - along every spawn-free schedule (every interleaving with other threads' steps) a stopper changes its pc at most that many times before its round is over; join_once, join_exactly_once (a join after the exit: exactly one call receives the value); channel_fifo_per_sender (join handles and channels modelled by their specifications). For the protocol before /repo d9e2a72a: dual_stopper_deadlock (a 20-line schedule reaches a deadlocked state) and no_deadlock_partial under 'one stop request at a time'. blocking_paths_publish: every call of a plain built-in outside the listed functions is wrapped in enter_safepoint; the full statement is false (not_blocking_paths_publish: transducer/stream callbacks, apply, JIT tail calls - finding K16b). LOCK ORDER (C16-n3): lean/SteelVerif/C16/LockOrder.lean models the host root table (GLOBAL_ROOTS) as a mutex that script threads take from UNPUBLISHED code and the collector takes to read the roots: no_deadlock_stop_first - with the code's order (the table is a leaf lock of the collector: taken after the world is stopped, released before it is resumed) no reachable state is deadlocked, for every number of mutators and every schedule; lock_first_deadlocks - the reversed order deadlocks in 4 steps with one mutator. Tied to the source by translate/c16_locks.py (regenerated every run): spin_holds_no_unpublished_lock (no named guard bound by Heap::mark / with_locked_env before enumerate_stacks / call_per_ctx is on a mutex that is taken outside a safepoint), root_table_taken_unpublished, heap_lock_inside_safepoint (every heap.lock outside the serialised-spawn / engine-clone paths is inside enter_safepoint). NOT a theorem: liveness under a real OS scheduler (no fairness is assumed or proved - the theorems say a step exists, not that it is taken), and that the Rust code follows the model - that is the program-level run: generated programs must finish with the generator's value while the watchdog sees stop requests complete and instructions being dispatched.",
     "level_note": "Trusted: Lean kernel (axioms propext, Classical.choice, Quot.sound), harness c16, the python generator and comparison, the regex translator. Modelled, not verified: sequentially consistent atomics (the code uses Relaxed), parking_lot / std mutexes, std::thread::park tokens, crossbeam channels and JoinHandle by their specifications; host interrupts are excluded from the progress theorems (C17). The thread list order in the model is spawn order (code: registration order). OS scheduling fairness, wall-clock time and Relaxed visibility delays are outside the model.",
 }
 
@@ -183,6 +183,33 @@ def gen_programs(rnd, quick):
                       " (thread-join! t))" % worker, set()))
         progs.append(("module-recv-tail-%s" % wk, "5", req + pre + " (let* ((t (spawn-native-thread (lambda () (mrecv-tail rx)))) (w %s)) (thread-join! w)"
                       " (thread-join! t))" % sender, {"tailblock"}))
+    # (11) root-table traffic from UNPUBLISHED code while another thread collects in a loop (seeded change C16-n3: a collector
+    # that owns the host root table while it waits for the threads to publish): values in flight in a channel taken out by a
+    # native higher-order procedure (transduce / map over channel/try-recv: call_func_or_else, no safepoint), threads that finish
+    # with a heap result (rooted after their last poll), channels dropped with values in flight, unjoined handles dropped
+    col = ("(define (collect-until h n) (if (thread-finished? h) n (begin (#%gc-collect) (collect-until h (+ n 1)))))"
+           " (define (fill tx n) (when (> n 0) (channel/send tx (list n)) (fill tx (- n 1))))")
+    nn = 12000 if quick else 60000
+    rr = 2 if quick else 5
+    progs.append(("roots-transduce-tryrecv", "%d" % (nn * rr), col +
+                  " (define (fd rounds acc) (if (= rounds 0) acc (let* ((ch (channels/new)) (rx (channels-receiver ch)) (rxs (map (lambda (_) rx) (range 0 %d))))"
+                  " (fill (channels-sender ch) %d) (fd (- rounds 1) (+ acc (transduce rxs (mapping channel/try-recv) (into-count)))))))"
+                  " (let ((w (spawn-native-thread (lambda () (fd %d 0))))) (collect-until w 0) (thread-join! w))" % (nn, nn, rr), {"roots"}))
+    progs.append(("roots-map-tryrecv", "%d" % (nn // 2), col +
+                  " (define (fd) (let* ((ch (channels/new)) (rx (channels-receiver ch)) (rxs (map (lambda (_) rx) (range 0 %d))))"
+                  " (fill (channels-sender ch) %d) (length (map channel/try-recv rxs))))"
+                  " (let ((w (spawn-native-thread fd))) (collect-until w 0) (thread-join! w))" % (nn // 2, nn // 2), {"roots"}))
+    tn = 20 if quick else 150       # a collection concurrent with a spawn + join costs ~170 ms on the unchanged tree (observed, cause not located)
+    progs.append(("roots-thread-results", "%d" % sum(range(tn)), col +
+                  " (define (gen i acc) (if (= i %d) acc (gen (+ i 1) (+ acc (car (thread-join! (spawn-native-thread (lambda () (list i (box i))))))))))"
+                  " (let ((w (spawn-native-thread (lambda () (gen 0 0))))) (collect-until w 0) (thread-join! w))" % tn, {"roots"}))
+    dn = 1500 if quick else 12000
+    progs.append(("roots-dropped-channels", "%d" % dn, col +
+                  " (define (churn i) (if (= i %d) i (begin (let* ((ch (channels/new)) (rx (channels-receiver ch))) (fill (channels-sender ch) 8) (channel/try-recv rx)) (churn (+ i 1)))))"
+                  " (let ((w (spawn-native-thread (lambda () (churn 0))))) (collect-until w 0) (thread-join! w))" % dn, {"roots"}))
+    progs.append(("roots-unjoined-handles", "%d" % tn, col +
+                  " (define (orphans i) (if (= i %d) i (begin (let ((h (spawn-native-thread (lambda () (list i (box i)))))) (time/sleep-ms 0)) (orphans (+ i 1)))))"
+                  " (let ((w (spawn-native-thread (lambda () (orphans 0))))) (collect-until w 0) (thread-join! w))" % tn, {"roots"}))
     return progs
 
 
@@ -250,7 +277,10 @@ def run(ctx):
             tr = json.loads(out[out.index("{"):])
         except Exception:  # noqa
             tr = {}
-    pr = C.prove(ctx, "C16", ["SteelVerif.C16.GenCallPaths", "c16driver"])
+    rc2, out2 = C.sh(["python3", os.path.join(C.VERIF, "translate", "c16_locks.py")], timeout=120)
+    if rc2 != 0:
+        ctx.violation("C16-translator-locks.txt", "translate/c16_locks.py failed (rc=%d):\n%s" % (rc2, out2[-2000:]), no_input=True)
+    pr = C.prove(ctx, "C16", ["SteelVerif.C16.GenCallPaths", "SteelVerif.C16.GenLocks", "SteelVerif.C16.LockOrder", "c16driver"])
     ok, log = C.build_harness(ctx, [BIN])
     if not ok:
         ctx.violation("C16-harness-build.txt", "the harness no longer builds against /repo:\n" + log, no_input=True)
